@@ -475,6 +475,10 @@ impl Stream for SocketListener {
     }
 }
 
+#[cfg(litep2p_verif)]
+#[path = "../../verif/c10_listener.rs"]
+pub(crate) mod verif_c10_listener;
+
 #[cfg(test)]
 mod tests {
     use super::*;
